@@ -1,0 +1,84 @@
+//go:build verif
+
+package handlers
+
+// Contracts for the deductive verifier in /verif (ruxvc); comments only. See the file of the same
+// name in the module root for the syntax and for the ghost state of Context and of the writer.
+
+// ---------------------------------------------------------------------------
+// net/http pieces used by the gates (assumed contracts)
+//
+// headerVal(h, key): value last Set for key in header map h (ghost view of http.Header).
+// served(h): number of ServeHTTP calls received by handler h; servedReq(h), servedW(h): arguments of the last one.
+//@ ghost headerVal(ref, string) string
+//@ ghost served(ref) int
+//@ ghost servedReq(ref) ref
+//@ ghost servedW(ref) ref
+//
+//@ extern (*net/http.Request).BasicAuth(r) (username, password, ok)
+//@   pure
+//@   ensures username == uf("basicauth.user", string, r) && password == uf("basicauth.pwd", string, r) && ok == uf("basicauth.ok", bool, r)
+//@ extern (net/http.Header).Set(h, key, value)
+//@   modifies headerVal(h, key)
+//@   ensures headerVal(h, key) == value
+//@ extern (net/http.Header).Get(h, key) (v)
+//@   pure
+//@   ensures v == uf("header.get", string, h, key)
+//@ extern (*net/http.Request).FormValue(r, key) (v)
+//@   pure
+//@   ensures v == uf("formvalue", string, r, key)
+//@ extern (*net/http.Request).Context(r) (ctx)
+//@   pure
+//@   ensures ctx == uf("reqctx", any, r)
+//@ extern context.WithValue(parent, key, val) (ctx)
+//@   pure
+//@   ensures uf("ctxvalue", any, ctx, key) == val && ctx != nil
+//@ extern (*net/http.Request).WithContext(r, ctx) (r2)
+//@   modifies allfields(http.Request)
+//@   ensures r2 != nil && fresh(r2) && r2.Method == old(r.Method) && r2.Header == old(r.Header) && r2.URL == old(r.URL) && uf("reqctx", any, r2) == ctx
+//@   ensures forall q *http.Request :: allocated(q) ==> q.Method == old(q.Method) && q.Header == old(q.Header)
+// A generic handler acts on the response only through the writer it is given (when that is rux's
+// writer: through the proved methods, so the writer invariant is kept).
+//@ extern (net/http.Handler).ServeHTTP(self, w, r)
+//@   modifies served(self), servedReq(self), servedW(self)
+//@   modifies rwOf(w).status, rwOf(w).length, hdrCalls(rwOf(w).Writer), hdrStatus(rwOf(w).Writer), body(rwOf(w).Writer), early(rwOf(w).Writer)
+//@   panics *
+//@   ensures served(self) == old(served(self)) + 1 && servedReq(self) == r && servedW(self) == refof(w)
+//@   ensures hastype(w, *rux.responseWriter) && old(wInv(rwOf(w))) ==> wInv(rwOf(w))
+
+// ---------------------------------------------------------------------------
+// HTTPBasicAuth (C20): the closure returned by HTTPBasicAuth(accounts)
+//
+//@ spec baUser(c *rux.Context) string = uf("basicauth.user", string, c.Req)
+//@ spec baPwd(c *rux.Context) string = uf("basicauth.pwd", string, c.Req)
+//@ spec baOK(c *rux.Context) bool = uf("basicauth.ok", bool, c.Req)
+//
+//@ func HTTPBasicAuth$1 [C20]
+//@   requires c != nil && c.Req != nil && respBound(c) && wInv(&c.writer) && !aborted(c) && c.index < 63
+//@   modifies c.index, aborted(c), c.data, entries(c.data), c.writer.status, c.writer.length, headerVal(_, _)
+//@   modifies hdrCalls(c.writer.Writer), hdrStatus(c.writer.Writer), body(c.writer.Writer), early(c.writer.Writer)
+//@   ensures gate: !aborted(c) <==> (baOK(c) && (len(accounts) <= 0 || (baUser(c) in accounts && accounts[baUser(c)] == baPwd(c))))
+//@   ensures cursor_follows: aborted(c) ==> c.index == 63
+//@   ensures not_aborted_keeps_cursor: !aborted(c) ==> c.index == old(c.index)
+//@   ensures unauthorized_401: !baOK(c) ==> c.writer.status == 401
+//@       && headerVal(uf("headersOf", ref, refof(c.writer.Writer)), "WWW-Authenticate") == "Basic realm=\"THE REALM\""
+//@   ensures forbidden_403: baOK(c) && aborted(c) ==> c.writer.status == 403
+//@   ensures writer_inv: wInv(&c.writer)
+
+// ---------------------------------------------------------------------------
+// HTTPMethodOverrideHandler (C20): the http.HandlerFunc closure
+//
+//@ spec omRaw(r *http.Request) string = uf("formvalue", string, r, "_method") != "" ? uf("formvalue", string, r, "_method")
+//@     : uf("header.get", string, r.Header, "X-HTTP-Method-Override")
+//@ spec omUp(r *http.Request) string = omRaw(r) != "" ? uf("upper", string, omRaw(r)) : omRaw(r)
+//@ spec overrides(r *http.Request) bool = r.Method == "POST" && (omUp(r) == "PUT" || omUp(r) == "PATCH" || omUp(r) == "DELETE")
+//
+//@ func HTTPMethodOverrideHandler$1 [C20]
+//@   requires r != nil && h != nil
+//@   modifies allfields(http.Request), served(h), servedReq(h), servedW(h)
+//@   modifies rwOf(w).status, rwOf(w).length, hdrCalls(rwOf(w).Writer), hdrStatus(rwOf(w).Writer), body(rwOf(w).Writer), early(rwOf(w).Writer)
+//@   panics *
+//@   ensures downstream_once: served(h) == old(served(h)) + 1 && servedW(h) == refof(w)
+//@   ensures rewritten: old(overrides(r)) ==> cast(servedReq(h), *http.Request).Method == old(omUp(r))
+//@       && uf("ctxvalue", any, uf("reqctx", any, servedReq(h)), iface("originalMethod", contextKey)) == iface("POST", string)
+//@   ensures untouched: !old(overrides(r)) ==> servedReq(h) == r && r.Method == old(r.Method)
